@@ -8,7 +8,7 @@
    PARTIAL by nature: the Go scheduler and memory model, fairness and wall-clock time are outside the model;
    the model proves ownership discipline, exits of waits and deadlock freedom, the watchdog observes liveness. *)
 From GL Require Import Conc.Locks Conc.LocksProofs Conc.LocksDeadlock Conc.LocksInv Conc.LocksInvBg Conc.LocksInvAll
-  Conc.LocksClose.
+  Conc.LocksClose Conc.LocksLate.
 
 (* 1. locks_balanced.  In every reachable state of the repaired code (any number of clients, any schedule,
       any outcome of the storage operations, Close at any point) what a client holds is a function of where
@@ -119,31 +119,42 @@ Print Assumptions C09_no_lost_wakeup.
       picks at random among the ready cases of a select; a run in which a select with a ready closeC case keeps
       taking another ready case (flush's write-delay loop sends its command, tCompaction accepts it, ...) is a
       run of the model and of the code -- of probability 0.
-      Proved (Conc/LocksClose.v): call a step GOOD when it is not a new call (no edge out of Idle; the owner of a
-      Transaction handle does nothing but Discard it, its documented obligation) and the goroutine, when it
-      stands at a select that lists closeC, takes the closeC case (compactionError: its closeC case).  With
+      Proved (Conc/LocksClose.v, Conc/LocksLate.v): call a step GOOD when it is not a new call (no edge out of
+      Idle or IdleTr -- so no step at all of the owner of a Transaction handle that is between calls) and the
+      goroutine, when it stands at a select that lists closeC, takes the closeC case (compactionError: its
+      closeC case).  With
       measure N s = 200 * (sum over the clients below N of their distance to the end of the call) +
       10 * distance of mCompaction to its exit + distance of tCompaction to its exit + length of its wait
       queue + (compactionError still running):
         - every good step of a reachable state with closeC closed strictly decreases the measure;
         - hence every run of good steps has at most [measure] steps;
-        - as long as some client is not Idle a good step is enabled (from no_deadlock);
-        - hence a run of good steps that cannot be extended ends with every client Idle: Close has returned,
-          and so has every other call.
+        - as long as some client is inside a call a good step is enabled.  This rests on repair fb021ae: once
+          Close has read db.tr, an open transaction is either the one Close read and discards itself, or one
+          whose OpenTransaction is on its way to give it up (C09_close_never_waits_for_idle_owner); before the
+          repair Close could wait for the owner of a transaction returned on a closed DB
+          (C09_late_transaction_refuted);
+        - hence a run of good steps that cannot be extended ends with every client between calls (Idle, or
+          IdleTr with a handle of a transaction that is closed): Close has returned, and so has every other call.
       Outside: scheduler fairness, the random choice of select, wall-clock time. *)
 Theorem C09_close_good_step_decreases : forall N s a s', inv2 s -> closeC s = true -> support N s ->
   good s a = true -> step fixed s a = Some s' -> measure N s' < measure N s.
 Proof. exact good_step_decreases. Qed.
 Print Assumptions C09_close_good_step_decreases.
 
-Theorem C09_close_good_step_enabled : forall s, reachable fixed s -> closeC s = true -> pending s ->
+Theorem C09_close_never_waits_for_idle_owner : forall s, reachable fixed s ->
+  forall i o, crd (cli s i) = true -> trown s = Some o ->
+    late_pc (cli s o) = true \/ (cpre (cli s i) = true /\ closetgt s = Some o).
+Proof. exact invK_reachable. Qed.
+Print Assumptions C09_close_never_waits_for_idle_owner.
+
+Theorem C09_close_good_step_enabled : forall s, reachable fixed s -> closeC s = true -> in_call s ->
   exists a s', good s a = true /\ step fixed s a = Some s'.
 Proof. exact good_enabled. Qed.
 Print Assumptions C09_close_good_step_enabled.
 
 Theorem C09_close_terminates_partial : forall s, reachable fixed s -> closeC s = true ->
   exists B, forall l s', grun s l = Some s' ->
-    length l <= B /\ ((forall a, grun s' [a] = None) -> forall i, cli s' i = Idle).
+    length l <= B /\ ((forall a, grun s' [a] = None) -> forall i, cli s' i = Idle \/ cli s' i = IdleTr).
 Proof. exact close_terminates_core. Qed.
 Print Assumptions C09_close_terminates_partial.
 
@@ -192,22 +203,6 @@ Theorem C09_inv2_set_done : forall s i pc', inv1 s -> inv2' s -> wl s = WTr -> t
 Proof. exact step_reltr. Qed.
 Print Assumptions C09_inv2_set_done.
 
-(*    What "the owner's obligation" means, on a concrete schedule (also reproduced on the implementation, see
-      findings/C09_close_waits_for_late_transaction.json): OpenTransaction (client 0) passes the closed test and
-      takes the write lock, Close (client 1) sets closed, closes closeC and reads db.tr == nil, OpenTransaction
-      sets db.tr and returns.  Close now waits for the write lock, which belongs to the transaction: its only
-      way on is the owner's Discard (Commit fails with ErrClosed at its closed test). *)
-Definition c09_late_tr : list action :=
-  [ACli 0 4 0; ACli 0 1 0; ACli 0 0 0; ACli 1 7 0; ACli 1 0 0; ACli 1 0 0; ACli 1 0 0; ACli 1 1 0;
-   ACli 0 2 0; ACli 0 1 0; ACli 0 0 0; ACli 0 0 0; AM 0; AM 0; AT 0; AT 0; AT 1; ACE 1].
-Example C09_close_waits_for_late_transaction :
-  match run fixed init c09_late_tr with
-  | Some s => Some (cli s 0, cli s 1, wl s, trown s, mc s, tc s, ce s,
-                    match step fixed s (ACli 1 0 0) with Some _ => true | None => false end)
-  | None => None
-  end = Some (IdleTr, CL4, WTr, Some 0, MDone, TDone, E_done, false).
-Proof. vm_compute. reflexivity. Qed.
-
 (* 4. The code before the repairs leaks: concrete schedules of the unfixed variants end in a state where a lock
       is held by nobody who will release it (and the repaired code, on the same schedule, does not). *)
 Example C09_commit_leaks_refuted :
@@ -250,3 +245,19 @@ Example C09_set_read_only_leaks_refuted :
   summary (run fixed init trace_D8) = Some (WFree, None, None, Ret, CL4).
 Proof. exact set_read_only_leaks_refuted. Qed.
 Print Assumptions C09_set_read_only_leaks_refuted.
+
+(*    OpenTransaction racing Close (repaired by fb021ae; found by this check, findings/C09_close_waits_for_late_transaction.json):
+      OpenTransaction passes the closed test and takes the write lock, Close sets closed, closes closeC and reads
+      db.tr == nil, OpenTransaction publishes db.tr.  Old code: it returns the transaction, and Close waits for the
+      write lock until the owner of a transaction on a closed DB discards it.  Repaired code, same schedule: it
+      sees closeC closed and gives the transaction up itself (tr.lk.Lock, discard, setDone); nine good steps
+      later OpenTransaction has returned ErrClosed and Close has returned. *)
+Example C09_late_transaction_refuted :
+  summary9 unfixed_D9 (run unfixed_D9 init trace_D9) = Some (IdleTr, CL4, WTr, Some 0, MDone, TDone, E_done, false) /\
+  summary9 fixed (run fixed init trace_D9) = Some (OT6 XUser, CL4, WTr, Some 0, MDone, TDone, E_done, false) /\
+  match run fixed init trace_D9 with
+  | Some s => match grun s trace_D9_rest with Some s' => Some (cli s' 0, cli s' 1, wl s', trown s') | None => None end
+  | None => None
+  end = Some (Idle, Idle, WClosed, None).
+Proof. exact late_transaction_refuted. Qed.
+Print Assumptions C09_late_transaction_refuted.
